@@ -307,6 +307,11 @@ def enum_caches(seed):
             def entry(tag):
                 """-> (values to store, what a reader must get back)"""
                 base = {"DEPEND": rnd.choice(("", "dev-libs/a", ">=dev-libs/b-1[x=]")), "SLOT": rnd.choice(("0", "1/2")), "DESCRIPTION": f"{tag} a=b = c" + rnd.choice(("", "", " ", "\t", " .")), "INHERIT": "e1 e2"}   # a value may end in a blank or a tab
+                # a single-line value may hold any of the characters at which only str.splitlines() -- not a text file's line iteration -- ends a line,
+                # with and without an '=' behind it; whatever the seed, every cache takes two of them in turn
+                seps = ("\x0b", "\x0c", "\x1c", "\x1d", "\x1e", "\x85", "\u2028", "\u2029")
+                sp = seps[(2 * s + (tag == "second")) % len(seps)]
+                base["DESCRIPTION"] = f"{tag} text{sp}tail" + ("=x" if s % 3 == 0 else "") + base["DESCRIPTION"][len(tag):]
                 store, back = dict(base), {k: v for k, v in base.items() if v != ""}
                 NS = types.SimpleNamespace
                 if md5:
